@@ -8,13 +8,22 @@
 (*    "empty"    nothing (the branch is empty: the panic is swallowed)     *)
 (*    "rollback" Rollback and set err (the repair)                         *)
 (*    "reraise"  Rollback and panic again                                  *)
+(* The constant Chain selects how the branches hang together:             *)
+(*    "chained"  if recovered {..} else if err != nil {..} else {..}       *)
+(*    "split"    if recovered {..};  if err != nil {..} else {..}          *)
+(* (with "split" the second statement runs after a recovered panic as      *)
+(* well - unless the recover branch panics again - and sees the err the    *)
+(* recover branch has just set).                                           *)
+(* Two layers are counted, as in Tx.tla: ccalls / rcalls are the calls of  *)
+(* tx.Commit() / tx.Rollback(), commits / rollbacks the ones that reach    *)
+(* the driver: a finished *sql.Tx answers ErrTxDone by itself.             *)
 (* The atomicity predicates of Tx.tla are restated on the mechanism's      *)
 (* variables.  A violation found here is a lead for the replay on the real *)
 (* code (checks/c11.py), never a verdict by itself.                        *)
 (***************************************************************************)
 EXTENDS Integers, TLC
 
-CONSTANTS RecoverBranch
+CONSTANTS RecoverBranch, Chain
 
 VARIABLES pc,        \* "idle" | "fn" | "defer" | "done"
           txopen,    \* a driver transaction is open
@@ -22,19 +31,20 @@ VARIABLES pc,        \* "idle" | "fn" | "defer" | "done"
           bend,      \* how fn ended: "none" | "nil" | "err" | "panic"
           err,       \* the named result: "nil" | "begin" | "fn" | "commit" | "wrapped" | "recovered"
           inflight,  \* a panic is propagating to the caller
-          commits, rollbacks
+          commits, rollbacks,   \* reached the driver
+          ccalls, rcalls        \* calls of tx.Commit() / tx.Rollback()
 
-vars == <<pc, txopen, begun, bend, err, inflight, commits, rollbacks>>
+vars == <<pc, txopen, begun, bend, err, inflight, commits, rollbacks, ccalls, rcalls>>
 
 Init == /\ pc = "idle" /\ txopen = FALSE /\ begun = FALSE /\ bend = "none" /\ err = "nil"
-        /\ inflight = FALSE /\ commits = 0 /\ rollbacks = 0
+        /\ inflight = FALSE /\ commits = 0 /\ rollbacks = 0 /\ ccalls = 0 /\ rcalls = 0
 
 \* tx, err = b(conn); if err != nil { return }
 Begin(ok) ==
   /\ pc = "idle"
   /\ IF ok THEN pc' = "fn" /\ txopen' = TRUE /\ begun' = TRUE /\ UNCHANGED err
            ELSE pc' = "done" /\ err' = "begin" /\ UNCHANGED <<txopen, begun>>
-  /\ UNCHANGED <<bend, inflight, commits, rollbacks>>
+  /\ UNCHANGED <<bend, inflight, commits, rollbacks, ccalls, rcalls>>
 
 \* return fn(ctx, tx)   -- sets err, or panics
 Fn(e) ==
@@ -42,30 +52,33 @@ Fn(e) ==
   /\ pc' = "defer" /\ bend' = e
   /\ err' = IF e = "err" THEN "fn" ELSE "nil"
   /\ inflight' = (e = "panic")
-  /\ UNCHANGED <<txopen, begun, commits, rollbacks>>
+  /\ UNCHANGED <<txopen, begun, commits, rollbacks, ccalls, rcalls>>
 
-\* the deferred function; `ok` is the driver's answer to the Commit/Rollback it may issue
+B2N(b) == IF b THEN 1 ELSE 0
+
+\* the deferred function; `ok` is the driver's answer to the Commit/Rollback of its err # nil / else
+\* statement (the recover branch reports "recovered" whatever its Rollback answers)
 Deferred(ok) ==
   /\ pc = "defer"
   /\ pc' = "done"
-  /\ IF inflight THEN          \* p := recover(); p != nil
-       CASE RecoverBranch = "empty" ->
-              /\ inflight' = FALSE
-              /\ UNCHANGED <<err, txopen, commits, rollbacks>>
-         [] RecoverBranch = "rollback" ->
-              /\ inflight' = FALSE /\ rollbacks' = rollbacks + 1 /\ txopen' = FALSE
-              /\ err' = "recovered" /\ UNCHANGED commits
-         [] RecoverBranch = "reraise" ->
-              /\ inflight' = TRUE /\ rollbacks' = rollbacks + 1 /\ txopen' = FALSE
-              /\ UNCHANGED <<err, commits>>
-     ELSE IF err # "nil" THEN  \* tx.Rollback(); wrap on failure
-       /\ rollbacks' = rollbacks + 1 /\ txopen' = FALSE
-       /\ err' = IF ok THEN err ELSE "wrapped"
-       /\ UNCHANGED <<inflight, commits>>
-     ELSE                      \* err = tx.Commit()
-       /\ commits' = commits + 1 /\ txopen' = FALSE
-       /\ err' = IF ok THEN "nil" ELSE "commit"
-       /\ UNCHANGED <<inflight, rollbacks>>
+  /\ LET rec    == inflight                                   \* p := recover(); p != nil
+         rdid   == rec /\ RecoverBranch # "empty"              \* the recover branch calls tx.Rollback()
+         rfly   == rec /\ RecoverBranch = "reraise"            \* ... and panics again
+         rerr   == IF rec /\ RecoverBranch = "rollback" THEN "recovered" ELSE err
+         second == ~rec \/ (Chain = "split" /\ ~rfly)         \* the err # nil / else statement runs
+         sroll  == second /\ rerr # "nil"                      \* tx.Rollback(); wrap on failure
+         scomm  == second /\ rerr = "nil"                      \* err = tx.Commit()
+     IN /\ inflight' = rfly
+        /\ rcalls' = rcalls + B2N(rdid) + B2N(sroll)
+        /\ ccalls' = ccalls + B2N(scomm)
+        \* only the first ending call on the open handle reaches the driver; a finished handle
+        \* refuses by itself (ErrTxDone)
+        /\ rollbacks' = rollbacks + B2N(rdid \/ sroll)
+        /\ commits' = commits + B2N(scomm /\ ~rdid)
+        /\ txopen' = (txopen /\ ~(rdid \/ sroll \/ scomm))
+        /\ err' = IF sroll THEN (IF ok /\ ~rdid THEN rerr ELSE "wrapped")
+                  ELSE IF scomm THEN (IF ok /\ ~rdid THEN "nil" ELSE "commit")
+                  ELSE rerr
   /\ UNCHANGED <<begun, bend>>
 
 Next == (\E ok \in BOOLEAN : Begin(ok) \/ Deferred(ok)) \/ (\E e \in {"nil", "err", "panic"} : Fn(e))
@@ -80,4 +93,6 @@ ElseRolledBack    == Done /\ begun /\ bend # "nil" => rollbacks = 1 /\ commits =
 FailureIsReported == Done /\ bend \in {"err", "panic"} => Result # "nil"
 NoDangling        == Done => ~txopen
 OneEnding         == commits + rollbacks <= 1
+\* the session layer: tx.Commit() / tx.Rollback() is called exactly once on a begun transaction
+OneEndingCall     == Done => ccalls + rcalls = (IF begun THEN 1 ELSE 0)
 =============================================================================
